@@ -217,6 +217,22 @@ Qed.
 
 End Find.
 
+(** ** eager sites: the vector an eager transformation materialises, computed by an actual
+    runner run under any schedule, is the denotation [apply_stage] uses *)
+Definition eager_vector (st : pstate V) r sched : list V :=
+  res_col (pe_of (ps_par st) (ps_src st)) []
+          (ws (mrun r (length (ps_src st)) (@nostop) sched)).
+
+Theorem eager_vector_correct (st : pstate V) r sched :
+  runner_wf r -> all_done (mrun r (length (ps_src st)) (@nostop) sched) ->
+  eager_vector st r sched = denote st.
+Proof.
+  intros Hw Hd. unfold eager_vector, denote.
+  pose proof (mrun_outcome Hw _ _ _ Hd) as Hout.
+  rewrite (res_col_eq (pe_of (ps_par st) (ps_src st)) Hout (fun _ => eq_refl) []).
+  cbn [app]. apply vals_positions.
+Qed.
+
 (** [find(q)] etc. run the computation with the predicate and-composed: the same traces as
     with one more [filter] stage *)
 Lemma with_predicate_trace (p : par V) id q x :
